@@ -144,7 +144,7 @@ func Canon(proto byte, t *Ty, v *Val, data []byte) []byte {
 	switch t.Name {
 	case "list", "set":
 		n, rest, ok := readSize(proto, data)
-		if !ok || n < 0 {
+		if !ok || n < 0 || n > len(rest) { // (a count beyond the bytes that are there does not parse: no 2^31-element allocation)
 			return data
 		}
 		items := make([]item, 0, n)
@@ -172,7 +172,7 @@ func Canon(proto byte, t *Ty, v *Val, data []byte) []byte {
 			return data
 		}
 		n, rest, ok := readSize(proto, data)
-		if !ok || n < 0 {
+		if !ok || n < 0 || n > len(rest) {
 			return data
 		}
 		type pair struct{ k, v item }
